@@ -118,4 +118,10 @@ SUBCHECKS = [
     SubCheck("inverse_axis_sweeps", check_inverse, enumerate=T.grid_sweeps(20000, 320000), nontrivial=_nt_grid, classes=_cls_grid,
              shards_quick=8, shards_thorough=16,
              rule="stratified sweeps through northings (equator .. band limit) and eastings (usual zone / out to 3 000 km), 20 000 / 320 000 points per line"),
+    SubCheck("forward_fill", check_forward, enumerate=T.geo_fill(60000, 1200000, salt=1010), nontrivial=_nt_geo, classes=_cls_geo,
+             shards_quick=12, shards_thorough=16,
+             rule="low-discrepancy fill of latitude x longitude / zone x offset x ellipsoid x projection: 60 000 / 1 200 000 points"),
+    SubCheck("inverse_fill", check_inverse, enumerate=T.grid_fill(40000, 800000, salt=1011), nontrivial=_nt_grid, classes=_cls_grid,
+             shards_quick=12, shards_thorough=16,
+             rule="low-discrepancy fill of zone x hemisphere x northing x easting x ellipsoid x projection: 40 000 / 800 000 points"),
 ]
